@@ -8,7 +8,7 @@ namespace PatchModel.C13
 open PatchModel
 
 /-- printing a line number and reading it back -/
-theorem number_roundtrip (n : Nat) (hn : (n : Int) ≤ i64Max) (rest : Bytes) (cur : Int)
+theorem number_roundtrip (n : Nat) (hn : (n : Int) ≤ i64Max / 4) (rest : Bytes) (cur : Int)
     (hrest : ∀ c, rest.head? = some c → isDigit c = false) :
     consumeLineNumber (intDigits (n : Int) ++ rest) cur = (true, (n : Int), rest) := by
   exact Unified.number_roundtrip n hn rest cur hrest
@@ -16,7 +16,7 @@ theorem number_roundtrip (n : Nat) (hn : (n : Int) ≤ i64Max) (rest : Bytes) (c
 /-- the unified range line round trip -/
 theorem unified_range_roundtrip (h : Hunk) (h0 : Hunk)
     (hos : 0 ≤ h.old.start) (hoc : 0 ≤ h.old.count) (hns : 0 ≤ h.new.start) (hnc : 0 ≤ h.new.count)
-    (hob : h.old.start ≤ i64Max) (hocb : h.old.count ≤ i64Max) (hnb : h.new.start ≤ i64Max) (hncb : h.new.count ≤ i64Max) :
+    (hob : h.old.start ≤ i64Max / 4) (hocb : h.old.count ≤ i64Max / 4) (hnb : h.new.start ≤ i64Max / 4) (hncb : h.new.count ≤ i64Max / 4) :
     parseUnifiedRange h0
       (str "@@ -" ++ intDigits h.old.start ++ (if h.old.count ≠ 1 then [44] ++ intDigits h.old.count else [])
         ++ str " +" ++ intDigits h.new.start ++ (if h.new.count ≠ 1 then [44] ++ intDigits h.new.count else [])
